@@ -102,7 +102,7 @@ func oracle(r *scen.Runner, sp *scen.Sprint) *harn.Failure {
 }
 
 var opts = scen.GenOpts{
-	World:        world.Opts{MaxFlows: 3, MaxNodes: 5, Voice: true, Languages: []string{"fra"}, SubflowHeavy: true, BrokenFlow: true},
+	World:        world.Opts{MaxFlows: 3, MaxNodes: 5, Voice: true, Languages: []string{"fra"}, SubflowHeavy: true, BrokenFlow: true, WaitHeavy: true},
 	WrongResumes: true,
 	Restarts:     true,
 	LowLimits:    false,
